@@ -24,7 +24,7 @@ claimed = {
         "(End) Qual: keys only if not disqualified and no complaint is left unanswered, and then the returned private key is x, the group key vA[0], the public shares y[k], with x*g2 == y_me; plain VSS likewise under validKey; "
         "Joint-Feldman End: every instance with an unanswered complaint is disqualified before the keys are summed, the failure rule and error classes are exact. "
         "The dealer's side: Fr_polynomial_image_write's public image is the generator times the written share. "
-        "NOT decided: agreement ACROSS participants (same verdicts, same group key) is the assume-guarantee composition over a reliable broadcast channel (paper step); that the public shares are the polynomial images of the vector (E2_polynomial_images: memory safety only) and the summation of the qualified dealers' keys (sumUpQualifiedKeys: assumed contract); Joint-Feldman's per-message loops (Start / NextTimeout / Handle*) are not part of this check.",
+        "NOT decided: agreement ACROSS participants (same verdicts, same group key) is the assume-guarantee composition over a reliable broadcast channel (paper step); that the public shares are the polynomial images of the vector (E2_polynomial_images: memory safety only) and the summation of the qualified dealers' keys (sumUpQualifiedKeys: assumed contract); Joint-Feldman's per-message loops (Start / NextTimeout / Handle*) are checked for typestate and memory safety only (C10/C09), not for key consistency.",
    note=TRUSTED + " G2 arithmetic and the equality test are BLST primitives (uninterpreted; equality is reflexive and blind to the affine conversion: assumed); g2vecValid (a 96n-byte string decodes to n G2 points) is an abstract predicate introduced by an assumed clause; composition across participants is not machine-checked.",
    design="§0.2, §5 C07"),
  "C11": dict(
@@ -140,23 +140,23 @@ claimed = {
    note=TRUSTED + " keccakF1600 (assembly or Go) and x/crypto cSHAKE are assumed; in the default build xorIn/copyOut/asBytes use unsafe casts and are assumed to satisfy the contracts proved for their purego variants.",
    design="§5 C13"),
  "C10": dict(
-   text="Typestate contracts for plain Feldman VSS and Feldman-VSS-Qual (every method and handler) and for Joint-Feldman's Running/ForceDisqualify: exact accept/reject table with the exact error class "
+   text="Typestate contracts for plain Feldman VSS and Feldman-VSS-Qual (every method and handler) and for Joint-Feldman (Start, NextTimeout, End, HandleBroadcastMsg, HandlePrivateMsg, ForceDisqualify): exact accept/reject table with the exact error class "
         "(errors.As classes tracked through fmt.Errorf %w), `nothing assigned` on every rejected call (all heaps, incl. the processor's ghost counters, unchanged for objects existing at entry), "
         "NextTimeout accepted exactly twice, End only after both timeouts and always leaving the instance not running, handlers never change the phase; proved as an induction over call histories via the representation invariants "
-        "(vssInv / qualInv incl. map-ownership of complaint objects). Joint-Feldman's looping methods (Start/NextTimeout/End/Handle*) are under contract but their per-instance loop obligations do not discharge within budget yet: NOT claimed.",
-   note=TRUSTED + " Error-class facts of the typed error constructors are assumed (errors.As semantics). Joint-Feldman loops not covered. C glue contracts are assumed at the cgo call sites.",
+        "(vssInv / qualInv incl. map-ownership of complaint objects). Joint-Feldman's looping methods: the typestate postconditions (refused while idle / while running / after the second timeout with nothing assigned; both timeouts advance every instance in lock step; Start leaves the joint instance running or, on a failed instance start, idle) are proved with the loop invariant `every instance still satisfies its representation invariant and the instances are pairwise separate` checked on loop entry and ASSUMED preserved across the call on instance i (the per-instance frame argument exceeds the solver budget; listed as an assumption); Start does not re-establish the joint invariant in its postcondition.",
+   note=TRUSTED + " Error-class facts of the typed error constructors are assumed (errors.As semantics). Joint-Feldman loops: preservation of the per-instance invariants across one iteration is assumed (entry is proved). C glue contracts are assumed at the cgo call sites.",
    design="§5 C10"),
  "C08": dict(
    text="Per-instance guarantee/assumption contracts of the DKG: an honest instance broadcasts at most one complaint per dealer (precondition `no own complaint yet` at every call of buildAndBroadcastComplaint) and answers a complaint at most once; "
         "a missing/late/wrong-size/undecodable verification vector, more than t complaints, a wrong-size answer or an unanswered complaint at End disqualify the dealer (postconditions incl. a ghost `visited` set for the map iteration in End); "
         "plain VSS: validKey implies a valid vector and share, End returns keys only if validKey. Composition across participants (same broadcast view) is a paper step.",
-   note=TRUSTED + " Channel assumptions and assume-guarantee composition are not machine-checked; C glue contracts (G2_check_log, G2_vector_read_bytes...) are assumed at the cgo call sites; Joint-Feldman loops not covered.",
+   note=TRUSTED + " Channel assumptions and assume-guarantee composition are not machine-checked; C glue contracts (G2_check_log, G2_vector_read_bytes...) are assumed at the cgo call sites; Joint-Feldman loops: per-instance invariant preservation assumed.",
    design="§5 C08"),
  "C09": dict(
    text="Absence of Go run-time panics (index/slice bounds, nil dereference, nil map write, failed type assertion, division by zero, negative make, explicit panic) and validity of every pointer/length pair handed to C, "
-        "for all arguments, for the functions under contract tagged C09: package random (all of rand.go, chacha20.go), package hash (purego configuration), plain Feldman VSS, Feldman-VSS-Qual, Joint-Feldman ForceDisqualify, the scalar/vector (de)serialization wrappers. "
-        "Exported functions outside this list (BLS sign/verify/aggregation, threshold signatures, ECDSA, Joint-Feldman loops, enum String methods) are not yet covered by this check.",
-   note=TRUSTED + " Termination is not proved. C function bodies are not yet verified (their `valid` preconditions are proved at the Go call sites).",
+        "for all arguments, for the functions under contract tagged C09: (about 190) package random (all of rand.go, chacha20.go), package hash (purego configuration), plain Feldman VSS, Feldman-VSS-Qual, Joint-Feldman (all methods), the scalar/point/vector (de)serialization wrappers and their C glue, BLS key generation/decoding/encoding, Sign/Verify/POP/SPOCK, aggregation, one-message, many-message and batch verification incl. the C tree recursion, threshold signatures (inspector, participant, reconstruction, key generation, Lagrange glue), ECDSA (sign, verify, format check, key generation, decoders, constructors). "
+        "Exported functions outside this list (a few enum String methods, hash-to-curve test helpers, BLST-internal C code) are not covered by this check.",
+   note=TRUSTED + " Termination is not proved. BLST-internal C functions are not verified (their `valid` preconditions are proved at the call sites); the glue C functions listed are verified over the clang AST.",
    design="§5 C09"),
 }
 
